@@ -96,9 +96,9 @@ def plan_c06(tier, seed, index):
 def plan_c07(tier, seed, index):
     P = []
     us = [["crc32c_slice16", 0, 2]]
-    hs = [("c07_step_len1_i1", 1, 1, True, 1200), ("c07_step_len2_i1", 2, 1, True, 2400), ("c07_step_len3_i1", 3, 1, False, 2400)]
+    hs = [("c07_step_len1_i1", 1, 1, True, 1200), ("c07_step_len2_i1", 2, 1, True, 2400)]
     if tier == "thorough":
-        hs += [("c07_step_len4_i0", 4, 0, False, 3600), ("c07_step_len4_i2", 4, 2, False, 7200), ("c07_step_len8_i0", 8, 0, False, 7200)]
+        hs += [("c07_step_len3_i1", 3, 1, False, 3600), ("c07_step_len4_i0", 4, 0, False, 3600), ("c07_step_len4_i2", 4, 2, False, 7200), ("c07_step_len8_i0", 8, 0, False, 7200)]
     for (h, l, i, core, cap) in hs:
         P.append(ob("c07_sink::" + h,
                     "write_all of %d symbolic bytes through CountingWriter over a sink with a fresh symbolic acceptance length per call and up to %d Interrupted: count == accepted, checksum == checksum of accepted bytes, from an arbitrary prior (count, checksum) state" % (l, i),
